@@ -1,6 +1,8 @@
 import GroupbyVerif.Props.C05
 import GroupbyVerif.Props.C02
 import GroupbyVerif.Props.C10
+import GroupbyVerif.LoopBridge.Nearby
+import GroupbyVerif.Lemmas.Nearby
 
 /-!
 # C06 — Rows with a null key never influence any group
@@ -182,5 +184,59 @@ example :
     let rows : List CRow := [⟨0, .num 3, true⟩, ⟨-1, .num 50, true⟩, ⟨0, .num 4, true⟩]
     ((C05.srcCum .sum .f 1 rows).1.1 2, (C05.srcCum .sum .f 1 (dropNull rows)).1.1 1, rankNonNull rows 2)
       = (.num 7, .num 7, 1) := by unfold C05.srcCum; decide
+
+/-! ### `group_nearby_members` (translated from `numba.py` on every run) -/
+
+/-- the outputs of the translated `group_nearby_members`, row by row -/
+def srcNearby (k : Kind) (d : Val) (n : Int) (rows : List (Int × Val)) : List Int :=
+  (List.range rows.length).map fun (j : Nat) =>
+    (Generated.Loops.group_nearby_members k (rows.map (·.1)).length (arrOf (rows.map (·.1)) 0) (rows.map (·.2)).length
+      (arrOf (rows.map (·.2)) .nan) d n).1 (j : Int)
+
+theorem srcNearby_eq (k : Kind) (d : Val) (n : Int) (rows : List (Int × Val)) (hc : ∀ r ∈ rows, r.1 < n) :
+    srcNearby k d n rows = nearby d rows := by
+  have h := LoopBridge.group_nearby_members_eq k (rows.map (·.1)) (rows.map (·.2)) d n (by simp)
+    (by intro c hc'; simp only [List.mem_map] at hc'; obtain ⟨r, hr, rfl⟩ := hc'; exact hc r hr)
+  rw [C03.zip_fst_snd] at h
+  apply List.ext_getElem?
+  intro j
+  unfold srcNearby
+  rw [List.getElem?_map]
+  have hlen : (nearby d rows).length = rows.length := nearbyRun_length d rows
+  by_cases hj : j < rows.length
+  · rw [List.getElem?_range hj, Option.map_some, h.2 j (by simpa using hj), List.getD_eq_getElem?_getD,
+      List.getElem?_eq_getElem (by omega)]
+    simp
+  · rw [List.getElem?_eq_none_iff.mpr (by simpa using hj), List.getElem?_eq_none_iff.mpr (by omega)]
+    rfl
+
+/-- **what the translated `group_nearby_members` writes**: a null-key row gets `-1`; a row of group `g` continues the
+sub-group of the group's previous row unless `abs(v - v_prev) > max_diff`, in which case - as for the group's first
+row - it opens a new sub-group numbered one above every number handed out before -/
+theorem source_nearby_spec (k : Kind) (d : Val) (n : Int) (rows : List (Int × Val)) (hc : ∀ r ∈ rows, r.1 < n)
+    (i : Nat) (g : Int) (v : Val) (hi : rows[i]? = some (g, v)) :
+    let outs := srcNearby k d n rows
+    (g < 0 → outs[i]? = some (-1)) ∧
+    (0 ≤ g → match lastSame (rows.take i) g with
+      | none => outs[i]? = some (maxSoFar (outs.take i) + 1)
+      | some (j, vj) =>
+        if Val.gt (Val.abs (Val.sub v vj)) d then outs[i]? = some (maxSoFar (outs.take i) + 1)
+        else outs[i]? = outs[j]?) := by
+  rw [srcNearby_eq k d n rows hc]
+  exact nearby_spec d rows i g v hi
+
+/-- **null-key rows never influence a sub-group (translated source)**: deleting them leaves the number of every other
+row unchanged (not merely the partition: the counter does not move on a null-key row) -/
+theorem source_nearby_null_rows_inert (k : Kind) (d : Val) (n : Int) (rows : List (Int × Val))
+    (hc : ∀ r ∈ rows, r.1 < n) :
+    srcNearby k d n (rows.filter (fun r => decide (0 ≤ r.1)))
+      = ((rows.zip (srcNearby k d n rows)).filter (fun p => decide (0 ≤ p.1.1))).map (·.2) := by
+  rw [srcNearby_eq k d n rows hc, srcNearby_eq k d n _ (fun r hr => hc r (List.mem_filter.mp hr).1)]
+  exact (nearbyRun_drop_null d rows).2
+
+/-- non-vacuity: two interleaved groups, a null key in between, a jump beyond `max_diff` -/
+example :
+    srcNearby .f (.num 2) 2 [(0, .num 1), (1, .num 1), (-1, .num 2), (0, .num 2), (1, .num 9), (0, .num 3)]
+      = [0, 1, -1, 0, 2, 0] := by unfold srcNearby; decide
 
 end GV.C06
